@@ -344,3 +344,25 @@ package html
 //@   oncall IndividualNode.IsLiving check of-the-owner: arg0 == owner
 //@   oncall IndividualNode.IsLiving do ownerLiving = result
 //@   oncall SimpleNode.Value check place-of-nobody-living: publisher.options.LivingVisibility != LivingVisibilityHide || (lastNode == node && (owner == nil || !ownerLiving))
+
+// C19 (no two pages share a name, links use the names of the files): page
+// names of individuals are made unique AGAINST the place keys, so the places
+// have to be known before the first page is named - and before any component
+// that will compute a link is built.
+//@ func Publisher.sendFiles
+//@   props C19
+// (the only-C19 stand-in for sendIndividualFiles has no precondition; its C17
+// contract asks for a valid visibility, which the option parser guarantees)
+//@   ghost known bool = false
+//@   opaque Publisher.Places, Publisher.sendIndividualFiles, Publisher.sendPlaceFiles, Publisher.sendFamilyFiles, Publisher.sendSurnameFiles, Publisher.sendSourceFiles, Publisher.sendStatisticsFiles
+//@   oncall Publisher.Places check own: arg0 == publisher
+//@   oncall Publisher.Places do known = true
+//@   oncall Publisher.sendIndividualFiles check places-known-before-pages-are-named: known && arg0 == publisher
+//@   oncall Publisher.sendPlaceFiles check places-known-before-pages-are-named: known && arg0 == publisher
+//@   oncall Publisher.sendFamilyFiles check places-known-before-pages-are-named: known && arg0 == publisher
+//@   oncall Publisher.sendSurnameFiles check places-known-before-pages-are-named: known && arg0 == publisher
+//@   oncall Publisher.sendSourceFiles check places-known-before-pages-are-named: known && arg0 == publisher
+//@   oncall Publisher.sendStatisticsFiles check places-known-before-pages-are-named: known && arg0 == publisher
+//@ func Publisher.sendIndividualFiles
+//@   only C19
+//@   trusted
